@@ -164,6 +164,7 @@ impl Property for C07 {
             let c = if pre == 2 { vals[k].merge(&vals[i]) } else { vals[k].clone() };
             rep.evals += 3;
             let stamps: std::collections::BTreeSet<(u64, u64)> = [&a, &b, &c].iter().map(|v| (v.timestamp.time, v.timestamp.replica_id.0)).collect();
+            if std::env::var("VERIF_C07_DEBUG").is_ok() && ctx.index == 1 { eprintln!("A {}\nB {}\nC {}\nFP {}", proj_s(&a), proj_s(&b), proj_s(&c), fnv(fnv(fnv(0, proj_s(&a).as_bytes()), proj_s(&b).as_bytes()), proj_s(&c).as_bytes())); }
             if stamps.len() >= 2 { rep.sub_fps.push(fnv(fnv(fnv(0, proj_s(&a).as_bytes()), proj_s(&b).as_bytes()), proj_s(&c).as_bytes())); }
             if kind(&a) != kind(&b) || kind(&b) != kind(&c) { rep.probe("law_instance_mixed_types"); }
             if a.timestamp.time == b.timestamp.time && a.timestamp.replica_id != b.timestamp.replica_id { rep.probe("law_instance_equal_time_different_replica"); }
